@@ -375,16 +375,22 @@ Definition expected_rust (stem : string) (mir : list mtop) : list string :=
                      | MTIface i => if String.eqb (lower (mi_name i)) (lower stem) then []
                                     else [String.append (lower (mi_name i)) ".rs"]
                      | _ => [] end) mir.
-(* [front agree; model names = written names; written names = expected (one per interface);
-    #interfaces] *)
-Definition chk_c19_rust (files : list ast) (impl : sx) (stem : string) (written : list string) : list N :=
+(* [front agree; model's generator verdict and names = the run's; written names = expected
+    (one per interface) or, on a file-name collision, the run is rejected; #interfaces] *)
+Definition chk_c19_rust (files : list ast) (impl : sx) (stem : string) (rust_ok : bool) (written : list string) : list N :=
   let o := front Cli Debug files in
   let m := sx_outcome sx_mir o in
   match o with
   | Ok mir =>
       let exp := expected_rust stem mir in
-      [b2n (outcome_agree m impl); b2n (str_set_eqb (rust_names stem mir) written);
-       b2n (str_set_eqb exp written && N.eqb (N.of_nat (List.length exp)) (N.of_nat (List.length written)));
+      let collide := negb (nodup_str (rust_others stem mir)) in
+      [b2n (outcome_agree m impl);
+       b2n (match rust_generate stem mir with
+            | Some l => rust_ok && str_set_eqb l written
+            | None => negb rust_ok && match written with [] => true | _ => false end
+            end);
+       b2n (if rust_ok then negb collide && str_set_eqb exp written && N.eqb (N.of_nat (List.length exp)) (N.of_nat (List.length written))
+            else collide);
        N.of_nat (List.length exp)]
   | _ => [b2n (outcome_agree m impl); 1; 1; 0]
   end.
